@@ -408,6 +408,20 @@ Definition sbs_leaf_value (nstart bit_index bias maxv : Z) : option (option Z) :
            && (nstart + bit_index + bias <=? 4294967295) && (nstart + bit_index + bias <=? maxv)
         then Some (nstart + bit_index + bias) else None).
 
+(* read-fonts layout.rs CoverageFormat2::get on the matching range record:
+   start_coverage_index.checked_add(gid - start_glyph_id) (u16); None = trap, Some None = no index *)
+Definition cov2_index (start_cov gid start_gid : Z) : option (option Z) :=
+  do d <- chk_u 16 (gid - start_gid) ;;
+  Some (if start_cov + d <=? 65535 then Some (start_cov + d) else None).
+Definition cov2_get (start_gid end_gid start_cov gid : Z) : option (option Z) :=
+  if (gid <? start_gid) || (end_gid <? gid) then Some None else cov2_index start_cov gid start_gid.
+(* layout.rs Device::iter: n = (end_size as usize + 1).saturating_sub(start_size as usize) *)
+Definition device_count (start_size end_size : Z) : option Z :=
+  do e <- addu64 end_size 1 ;; Some (sat_u 64 (e - start_size)).
+(* svg.rs Svg::glyph_data: all_data.get(start..start.checked_add(len)?) ; result = slice length *)
+Definition svg_doc_slice (off len datalen : Z) : option (option Z) :=
+  Some (if off + len <=? 18446744073709551615 then (if off + len <=? datalen then Some len else None) else None).
+
 (* ---- correspondence case format (harness/src/bin/c20.rs): (op, args, result);
         result [] = the real function panicked, [v..] = returned value(s) ---- *)
 Definition o1 (r : option Z) : list Z := match r with Some v => [v] | None => [] end.
@@ -482,6 +496,9 @@ Definition eval_op (op : Z) (args : list Z) : list Z :=
       match sbs_filled_node bf height bias maxv path with
       | None => [] | Some None => [-1] | Some (Some (a, b)) => [a; b]
       end
+  | 55, [sg; eg; sc; gid] => oo (cov2_get sg eg sc gid)
+  | 56, [ss; es; per_word] => match device_count ss es with Some n => [if per_word =? 0 then 0 else n] | None => [] end
+  | 57, [off; len; datalen] => oo (svg_doc_slice off len datalen)
   | 33, [a; b] => o1 (fx_add_assign 32 a b)         (* Fixed += / F26Dot6 += *)
   | 34, [a; b] => o1 (fx_sub_assign 32 a b)
   | 35, [a; b] => o1 (fx_add_assign 16 a b)         (* F2Dot14 += *)
